@@ -377,11 +377,58 @@ def library_driving(sh, seed, thorough):
                 td.prior.alpha = 0.5 + (it % 5) * 0.4
 
 
+def key_collisions(ck, n_arrays):
+    """Different arguments must not share a memo key: the real key objects of the two convolution memo tables are
+    built for n_arrays different likelihood grids (as many as a long run on a large input produces) and compared.  With
+    the 64-bit content digests no two agree (chance ~1e-9); a collision is then demonstrated on the real cache: the
+    second array receives the first one's result."""
+    import numpy as np
+    from phyclone.utils.utils import NumpyArrayListHasher, NumpyTwoArraysHasher
+    from phyclone.tree.utils import compute_log_S
+
+    rs = np.random.RandomState(4242)
+    base = np.log(rs.randint(1, 50, size=(n_arrays, 1, 6)).astype(float))
+    base[:, 0, 0] += np.arange(n_arrays) * 1e-3          # all different
+    seen = {}
+    pair0 = np.zeros((1, 6))
+    hit = None
+    for i in range(n_arrays):
+        a = np.ascontiguousarray(base[i])
+        try:
+            k1 = NumpyArrayListHasher([a])
+            k2 = NumpyTwoArraysHasher(a, pair0)
+        except Exception:  # noqa - the key classes changed shape: nothing to compare here
+            ck.note("the memo key classes are no longer constructible as NumpyArrayListHasher(list) / NumpyTwoArraysHasher(a, b): key collisions not searched")
+            return
+        for tag, k in (("list", k1), ("pair", k2)):
+            kk = (tag, hash(k), repr(k.h))
+            j = seen.get(kk)
+            if j is not None and hit is None:
+                hit = (tag, j, i)
+            seen[kk] = i
+        if hit:
+            break
+    ck.evaluations += n_arrays
+    ck.nontrivial("key_collisions")
+    if hit:
+        tag, j, i = hit
+        a, b = np.ascontiguousarray(base[j]), np.ascontiguousarray(base[i])
+        compute_log_S.cache_clear()
+        ra = np.array(compute_log_S([a]))
+        rb = np.array(compute_log_S([b]))
+        compute_log_S.cache_clear()
+        rb_cold = np.array(compute_log_S([b]))
+        dev = float(np.max(np.abs(rb - rb_cold)))
+        ck.violation("C14|key_collision|%s" % tag, "two different likelihood grids (#%d and #%d of %d) share a memo key of the %s table; after the first was computed the second receives a result that differs by %.3g from its own" % (
+            j, i, n_arrays, "children-convolution" if tag == "list" else "pairwise-convolution", dev), {"first": base[j].tolist(), "second": base[i].tolist()})
+
+
 def run(corrupt=None):
     ck = Check("C14")
     env.use_repo()
     thorough = ck.tier == "thorough"
     model_runs(ck)
+    key_collisions(ck, 400000 if thorough else 200000)
     sh = Shadow(ck)
     sh.install()
     try:
